@@ -56,7 +56,11 @@ const FILE_EXTS: &[&str] = get_files_exts();
 
 fn de_inner_json<R: Read>(locale_file: R, seed: LocaleSeed) -> Result<Locale, SerdeError> {
     let mut deserializer = serde_json::Deserializer::from_reader(locale_file);
-    serde::de::DeserializeSeed::deserialize(seed, &mut deserializer).map_err(SerdeError::Json)
+    let locale = serde::de::DeserializeSeed::deserialize(seed, &mut deserializer)
+        .map_err(SerdeError::Json)?;
+    // anything after the object is an error, as it is for the other formats.
+    deserializer.end().map_err(SerdeError::Json)?;
+    Ok(locale)
 }
 
 fn de_inner_json5<R: Read>(mut locale_file: R, seed: LocaleSeed) -> Result<Locale, SerdeError> {
